@@ -18,6 +18,7 @@ VX = os.path.join(TARGET, "harness", "release", "vx")
 VHELPER = os.path.join(TARGET, "harness", "release", "vhelper")
 SLOW_RESOLVE_SO = os.path.join(TARGET, "shim", "libslowresolve.so")
 SWAP_ON_OPEN_SO = os.path.join(TARGET, "shim", "libswaponopen.so")
+CRASH_AT_CALL_SO = os.path.join(TARGET, "shim", "libcrashatcall.so")
 RUSTFLAGS = "--cfg tokio_unstable --cfg pnordahl_monorail_verif"
 
 
@@ -65,11 +66,11 @@ def ensure_built(need_cli=True, need_harness=True):
                 log(out[-6000:])
                 raise EngineError("build of %s failed" % name)
         # the slow-resolver fault injector (LD_PRELOAD shim, plain C)
-        for so, srcname in ((SLOW_RESOLVE_SO, "slow_resolve.c"), (SWAP_ON_OPEN_SO, "swap_on_open.c")):
+        for so, srcname in ((SLOW_RESOLVE_SO, "slow_resolve.c"), (SWAP_ON_OPEN_SO, "swap_on_open.c"), (CRASH_AT_CALL_SO, "crash_at_call.c")):
             shim_src = os.path.join(VERIF, "harness", "shim", srcname)
             if need_harness and (not os.path.exists(so) or os.path.getmtime(so) < os.path.getmtime(shim_src)):
                 os.makedirs(os.path.dirname(so), exist_ok=True)
-                r = subprocess.run(["cc", "-shared", "-fPIC", "-O1", "-o", so, shim_src, "-ldl"], capture_output=True, text=True)
+                r = subprocess.run(["cc", "-shared", "-fPIC", "-O1", "-w", "-o", so, shim_src, "-ldl"], capture_output=True, text=True)
                 if r.returncode != 0:
                     log(r.stderr[-2000:])
                     raise EngineError("build of the %s shim failed" % srcname)
